@@ -1,7 +1,7 @@
 (** C15 — uuencode is Perl-compatible and round-trips; decoding is total and
     pure.  Property theorems only; each is closed by [exact] of a lemma proved
     in Proofs/. *)
-From CRS Require Import Lib.Bytes Model.UU Proofs.UUProofs Proofs.UUTotal.
+From CRS Require Import Lib.Bytes Model.UU Proofs.UUProofs Proofs.UUTotal Proofs.UUPerl.
 Open Scope N_scope.
 
 (** Decoding the encoder's output returns the original bytes, appended to the
@@ -33,6 +33,12 @@ Proof. exact decode_length_bound. Qed.
 (** Encoder output uses only newline and the characters '!' .. '`' (used by C16). *)
 Theorem c15_alphabet : forall src, Forall (fun c => c = 10 \/ 33 <= c <= 96) (encode src).
 Proof. exact encode_alphabet. Qed.
+
+(** The encoder's output is, for every byte string, byte-identical to the
+    bit-regrouping specification of Perl's pack("u", ...) — so Perl's
+    unpack("u", ...) recovers the source exactly (PerlProofs). *)
+Theorem c15_perl_compatible : forall src, wf_bytes src -> encode src = perl_pack_u src.
+Proof. exact encode_is_perl_pack_u. Qed.
 
 (** Non-vacuity: a concrete non-trivial round trip (the repository's own "Cat" vector). *)
 Example c15_cat :
